@@ -4,6 +4,7 @@
 // 0..5 | 0..79, target sizes {1 KiB, 4 KiB, 16 KiB, 64 KiB} for the directory generators;
 //
 //	UnixFSFile / GenerateFile: sizes {0,1,1024,65536,300000}, default chunker and "size-100";
+//	  UnixFSFile also with a random source that ends after {0, 100, size-1} bytes (sizes 1024, 65536);
 //	UnixFSDirectory: default child generator and a custom one (WithChildGenerator: files, one nested
 //	  directory, stop), each without / with WithShardBitwidth(4), and with WithDirname("top");
 //	GenerateDirectory rootSharded false/true; GenerateDirectoryFrom dir "/x/y" sharded false/true;
@@ -23,6 +24,7 @@ package c19
 import (
 	"bytes"
 	"fmt"
+	"io"
 	"math/rand"
 	"sort"
 	"strings"
@@ -205,6 +207,16 @@ func TestBounded(t *testing.T) {
 					}
 					return testutil.UnixFSFile(*ls, size, opts...)
 				})
+			}
+			// a random source that runs dry before the requested size: the entry must describe the
+			// (shorter) file that was actually stored
+			if size == 1024 || size == 65536 {
+				for _, avail := range []int{0, 100, size - 1} {
+					id := fmt.Sprintf("UnixFSFile:seed=%d,size=%d,source-ends-after=%d", seed, size, avail)
+					h.run(id, seed, true, "", func(_ *testing.T, _ *recorder, ls *ipld.LinkSystem, rnd *rand.Rand) (testutil.DirEntry, error) {
+						return testutil.UnixFSFile(*ls, size, testutil.WithRandReader(io.LimitReader(rnd, int64(avail))), testutil.WithChunker("size-100"))
+					})
+				}
 			}
 			if size == 300000 && seed > 2 {
 				continue
